@@ -20,16 +20,18 @@ class Cfg:
         self.K, self.SL, self.depth, self.ints, self.strs, self.hints = K, SL, depth, ints, strs, hints
         self.floats = floats
         self.bytes = "sym"
+        self.npool = 99  # use only the first npool entries of each pool
 
     def but(self, **kw):
         c = Cfg(self.K, self.SL, self.depth, self.ints, self.strs, self.floats, self.hints)
         c.bytes = self.bytes
+        c.npool = self.npool
         for k, v in kw.items():
             setattr(c, k, v)
         return c
 
 
-POOL = ["", "a", "\u00e9", "xyz"]
+POOL = ["", "xyz", "\u00e9", "a"]
 # floats chosen by symbolic index when the structural code only passes them through
 # (every double is covered bit-exactly at layer 1): includes an int written under float/double
 FPOOL = [-0.0, 1.5, 3, 5e-324, float("inf")]
@@ -85,7 +87,7 @@ class Hints:
         return self.hs[self.i - 1] if self.i <= len(self.hs) else 0
 
 
-BPOOL = [b"", b"\x00", b"ab", b"\xff\xfe\xfd"]
+BPOOL = [b"", b"\xff\xfe\xfd", b"ab", b"\x00"]
 IPOOL = [0, -1, 64, (1 << 31) - 1, -(1 << 31)]
 LPOOL = [0, -65, 1 << 31, (1 << 63) - 1, -(1 << 63)]
 
@@ -164,13 +166,13 @@ def _build(node, names, v, cfg, depth=None, hints=None, mut=None):
             if v != v:
                 raise OutOfDomain()  # NaN: compared by class at layer 1
             return v
-        for i, x in enumerate(FPOOL):  # explicit chain: the result stays a concrete number
+        for i, x in enumerate(FPOOL[:cfg.npool]):  # explicit chain: the result stays a concrete number
             if v == i:
                 return x
         raise OutOfDomain()
     if k in ("bytes", "fixed") and cfg.bytes == "pool":
         pool = BPOOL if k == "bytes" else [bytes(range(node["size"])), b"\xff" * node["size"]]
-        for i, x in enumerate(pool):
+        for i, x in enumerate(pool[:cfg.npool]):
             if v == i:
                 return x
         raise OutOfDomain()
@@ -183,7 +185,7 @@ def _build(node, names, v, cfg, depth=None, hints=None, mut=None):
             if len(v) > cfg.SL:
                 raise OutOfDomain()
             return v
-        for i, x in enumerate(POOL):
+        for i, x in enumerate(POOL[:cfg.npool]):
             if v == i:
                 return x
         raise OutOfDomain()
